@@ -70,3 +70,38 @@ def F.resize (f : F) (n : Nat) : F :=
   else { f with size := n }
 
 end GoNfsd.Model.FileData
+
+namespace GoNfsd.Model.FileData
+
+/-- the disk blocks a `Resize` to `n` gives back: those of the file blocks from `roundUp n` up to the
+    end of the file (the run of `Shrink`) -/
+def F.dropped (f : F) (n : Nat) : List Nat :=
+  ((List.range (roundUp f.size)).filter fun i => roundUp n ≤ i).map f.map
+
+/-- `Inode.Resize` with `FreeBlock`'s zeroing: every block given back is cleared -/
+def F.resizeZ (f : F) (n : Nat) : F :=
+  { f.resize n with data := fun b o => if b ≠ 0 ∧ b ∈ f.dropped n then 0 else (f.resize n).data b o }
+
+/-! ### several files on one disk -/
+
+/-- files (by number) sharing the blocks of one disk -/
+structure G where
+  maps  : Nat → Nat → Nat
+  sizes : Nat → Nat
+  data  : Nat → Nat → UInt8
+
+def G.file (g : G) (a : Nat) : F := { map := g.maps a, data := g.data, size := g.sizes a }
+
+def G.setFile (g : G) (a : Nat) (f : F) : G :=
+  { maps := fun x => if x = a then f.map else g.maps x,
+    sizes := fun x => if x = a then f.size else g.sizes x,
+    data := f.data }
+
+/-- WRITE to file `a` -/
+def G.write (g : G) (a : Nat) (fresh : Nat → Nat) (off : Nat) (bytes : List UInt8) : G :=
+  g.setFile a ((g.file a).write fresh off bytes)
+
+/-- SETATTR size of file `a` (size 0: the content of a removed file is dropped the same way) -/
+def G.resize (g : G) (a : Nat) (n : Nat) : G := g.setFile a ((g.file a).resizeZ n)
+
+end GoNfsd.Model.FileData
